@@ -27,23 +27,23 @@ CLAIMS = {
          "The specification is built at one place from constants, so its lock-down is decided for every requested path set: read-only root, no-new-privileges, empty capability sets, six namespaces incl. network, positive memory/pid limits, GOPROXY=off, --network=none, ro bind mounts for every host source, reserved-path/Abs/EvalSymlinks guards on user mounts, fixed destinations reserved, Spec.Mounts is the stably Destination-sorted slice, escape check before any mount point is created.",
          "Trusts the container runtime to enforce the specification; does not decide paths merely under a reserved path.",
          "DESIGN.md §4 C14"),
- "C08": ("must-pass-through with NaN-safe comparison atoms for every admission of a matcher result, forward use-census of the threshold value (through captured variables), sort-provenance of returned alert slices, sibling comparison of guard shapes between exact and full mode, enumerated bounded shapes for score terms",
+ "C08": ("must-pass-through with NaN-safe comparison atoms for every admission of a matcher result, forward use-census of the threshold value (through captured variables), sort-provenance of returned alert slices, sibling comparison of guard shapes between exact and full mode, enumerated bounded shapes for score terms; veto-on-every-path rule for the required-call test; no branch on the already filtered alert collection may skip candidates; sort not followed by appending callbacks",
          "Decides the structural half of 'every alert is justified': missing required call ⇒ constant-0 confidence on every reachable return; every admission in both backends dominated by Confidence >= threshold-field (or a constant >= 0.99 in JSON exact mode) in NaN-safe polarity; the threshold feeds nothing but such comparisons (monotonicity); returned alert slices are the Confidence-descending-sorted ones; exact and full mode guard admission by the same shapes (JSON: only the two stated differences); every score term is one of the enumerated [0,1] shapes and confidence is their mean.",
          "Does not decide numeric equality of confidences across modes nor floating-point corner cases beyond the NaN polarity of the filter.",
          "DESIGN.md §4 C08"),
- "C06": ("coupled-update analysis (record write ⇒ all index writes + stale deletes in the same batch on every path to the commit), argument provenance through key builders, must-pass-through for stale-delete and dedup guards with an only-these-guards census, bound provenance of every IterOptions, prefix census of the rebuild's range deletes, format analysis of composite keys",
+ "C06": ("coupled-update analysis (record write ⇒ all index writes + stale deletes in the same batch on every path to the commit), argument provenance through key builders, must-pass-through for stale-delete and dedup guards with an only-these-guards census, bound provenance of every IterOptions, prefix census of the rebuild's range deletes, format analysis of composite keys; sibling agreement of rebuild and add path (fields and conditions); dedup-table key stability; fresh decode target per iteration; operations of batch helpers attributed to their caller",
          "Decides the structural mechanism behind 'lookups reflect exactly the current set': every writer of a signature record writes all three index entries from that very signature and deletes the entries computed from the previously stored record (guarded only by 'field changed'), deletion removes every index entry, batch adds process only the last occurrence of an ID, all iterators are prefix-bounded with a nil-checked upper bound, the rebuild clears exactly the index prefixes and re-derives through the same builders, in-place rewrites touch no index-relevant field, composite keys are unambiguous (two known findings: topo:/fuzzy: keys).",
          "Does not decide equality with a brute-force oracle over histories; trusts Pebble.",
          "DESIGN.md §4 C06"),
- "C11": ("receiver provenance of every iterator / record fetch in alert-producing scans (same *pebble.Snapshot, through closures), forward must-lockset analysis per method with derived guarded-field sets, escape analysis of the JSON getters' results",
+ "C11": ("receiver provenance of every iterator / record fetch in alert-producing scans (same *pebble.Snapshot, through closures), forward must-lockset analysis per method with derived guarded-field sets, escape analysis of the JSON getters' results; transitive live-handle reads through store helpers; read half of a read-modify-write under the write lock; interprocedural lock level for unexported helpers (fixpoint over call sites); batch applied under one lock acquisition",
          "Decides the structural conditions for consistent concurrent scans: index walk and record fetch share one snapshot in every alert/candidate producer; every access to a mutex-guarded field and every durable write holds the required lock level on every path; JSON getters hand out copies. This covers every interleaving because it is a property of each method's lock/snapshot discipline, which the race-detector stress of the test suite can only sample.",
          "Trusts pebble.Snapshot consistency and sync.RWMutex; races inside Pebble and liveness are not decided.",
          "DESIGN.md §4 C11"),
- "C18": ("coupled-update analysis of the JSON store's slice and ID→slot map, error-discipline rule over the streaming migration (every decoder error ends in an error return, nothing is decoded after an error), static type agreement of gob encode/decode sites, JSON key agreement between writers and the migration, typestate ordering of the atomic save",
+ "C18": ("coupled-update analysis of the JSON store's slice and ID→slot map, error-discipline rule over the streaming migration (every decoder error ends in an error return, nothing is decoded after an error), static type agreement of gob encode/decode sites, JSON key agreement between writers and the migration, typestate ordering of the atomic save; fresh decode target per iteration for signature decodes in loops",
          "Decides the structural necessary conditions of 'signatures survive migration/export/either backend': slot map updated with every append or rebuilt after replacement; migration propagates every Token/Decode/import error and requires the array and its closing bracket; gob encodes and decodes the same static type; export, JSON store and migration agree on the array key; the save is temp→encode→Sync→Close→Rename.",
          "Field-for-field round-trip equality through gob/JSON is a runtime property and is not decided.",
          "DESIGN.md §4 C18"),
- "C16": ("must-pass-through over the per-file worker's success returns (every error-returning step and the size test), recover-handler effect census in goroutine bodies, edge-cut for strict mode, guard census of the function enumerator, closed-world census of the file collector's decision atoms",
+ "C16": ("must-pass-through over the per-file worker's success returns (every error-returning step and the size test), recover-handler effect census in goroutine bodies, edge-cut for strict mode, guard census of the function enumerator, closed-world census of the file collector's decision atoms; package-initialiser closures not skipped; every fingerprint result carries its SSA function",
          "Decides the structural conditions of 'nothing escapes analysis': a file result without an error message only when every step succeeded; panics in per-file goroutines become that file's error and raise the flag (check) or a diagnostic (scan); strict ∧ flag ⇒ no success return; the enumerator covers functions, all methods, closures on every non-skipped path and skips synthetic functions only when they are not range-over-func bodies; the collector's decisions use only the enumerated exclusion atoms; size tests precede bounded reads.",
          "The walk predicate's value on every file name and build-constraint exclusions are not decided.",
          "DESIGN.md §4 C16"),
@@ -51,27 +51,27 @@ CLAIMS = {
          "Decides the partition mechanism for every input: every pairing marks both sides, rename pairings only between unused functions, leftovers only from unmarked functions, zipper maps written in lockstep by one function and only for unmapped instructions, summary counters are len() of the lists whose entries carry that status, Added/Removed operation lists are exactly the unmapped (non-virtualised) instructions.",
          "Uniqueness of short names and maximality of the matching are not decided.",
          "DESIGN.md §4 C09"),
- "C19": ("must-pass-through for candidate creation (similarity >= threshold) and for the 'renamed' status (exactly the not-by-name edge), shared one-to-one rules of C09, forbidden-read census (names, positions, Signature.String) and self-reference replacement check on the similarity's inputs",
+ "C19": ("must-pass-through for candidate creation (similarity >= threshold) and for the 'renamed' status (exactly the not-by-name edge), shared one-to-one rules of C09, forbidden-read census (names, positions, Signature.String) and self-reference replacement check on the similarity's inputs; swap-invariance proof of the similarity by structural induction over the SSA value graph (mirrored fields, commutative operators, min/max selectors, |x| of a mirrored difference, recursively proved helpers; MapSimilarity's symmetry is a listed assumption); interval evaluation showing the similarity is a weighted mean in [0,1]; exhaustive-candidate-search rule (no early exit from the candidate loops)",
          "Decides the structural half of rename recognition: candidates only at or above the threshold, computed by the structural similarity; pairings one-to-one; 'renamed' stored exactly for pairs not matched by name; the topology that feeds the similarity reads no name of the analysed function (callee names only, self-calls replaced by a name-free token). Symmetry, range and the value 1 of the similarity, and the optimality of greedy pairing are numeric/runtime properties and are listed as not decided.",
-         "Numeric properties of TopologySimilarity are out of reach of this technique here and not claimed.",
+         "Symmetry and range of MapSimilarity / typeListSimilarity themselves rest on arithmetic facts (max(c,0)=c for counts, matches <= min length) and are stated assumptions of C19.SYM / C19.RANGE, not decided.",
          "DESIGN.md §4 C19"),
- "C12": ("must-pass-through over the induction-variable classifier and the trip-count derivation (incl. the check-every-predecessor loop form and threading of boolean flags), operator-set extraction",
+ "C12": ("must-pass-through over the induction-variable classifier and the trip-count derivation (incl. the check-every-predecessor loop form and threading of boolean flags), operator-set extraction; exact-constant rule for the SSA-constant converter; ownership/aliasing rule for the symbolic evaluator (only freshly allocated big.Ints are written, no node hands out its own constant); operator-follows-polarity, step-sign and inclusive dead-shortcut rules for the trip count",
          "Decides the gating of loop summaries for every loop shape: an induction variable is recorded only for integer updates whose every in-loop phi edge is the recognised update, with one start value, an invariant step, ADD/SUB only as basic (SUB negated, phi on the left), and only basic IVs become {start,+,step} in the IR; a computed trip count is stored only for single-exit, top-tested loops whose true edge stays in the loop and whose limit is invariant. The arithmetic of the formulas and wrap-around are runtime matters and not decided.",
          "Trusts go/ssa's dominator tree and natural-loop structure as used by the tool.",
          "DESIGN.md §4 C12"),
- "C17": ("recursion census: strongly connected components of the call graph (CHA; VTA in the thorough tier) each classified by a premise-checking detector (depth+increment, visited set, shrinking argument, structural descent, size-capped trees, memoised expansion); must-pass-through for every work cap",
+ "C17": ("recursion census: strongly connected components of the call graph (CHA; VTA in the thorough tier) each classified by a premise-checking detector (depth+increment, visited set, shrinking argument, structural descent, size-capped trees, memoised expansion); must-pass-through for every work cap; unconditional-memo rule (a memo counts only if filled whenever the value was computed); matcher-never-on-oversized rule; zero-tested divisor rule for big-integer division in the symbolic evaluator; scope by precise reachability",
          "Decides that every recursive component on the analysis paths has a structural bound and that fan-out > 1 is always paired with a memo, visited set, tree descent or constructor-side size cap (a depth bound alone is rejected as exponential) — the rule that found both blow-ups repaired in /repo (shared-subexpression rendering, nested induction substitution) from the code's shape; all work caps dominate their sinks. The polynomial bound as a number and comparison counts are not decided.",
          "Call-graph soundness for the module's own code (no reflection/unsafe in production code).",
          "DESIGN.md §4 C17"),
- "C05": ("producer/consumer agreement census for hash fields (who-may-assign, who-compares, who-probes), format-prefix and byte-layout agreement between index writers and readers, forbidden-read census with self-reference replacement check on the topology path, inclusive-comparison atoms for admission, collection-agreement between indexer and matcher",
+ "C05": ("producer/consumer agreement census for hash fields (who-may-assign, who-compares, who-probes), format-prefix and byte-layout agreement between index writers and readers, forbidden-read census with self-reference replacement check on the topology path, inclusive-comparison atoms for admission, collection-agreement between indexer and matcher; derivation census of stored string patterns (literal or trimmed literal); key/prefix template agreement independent of Sprintf vs concatenation; independent matching of requirements",
          "Decides the structural conditions under which indexed code is found again: stored and looked-up hashes come from the same two functions; reader prefixes are format-prefixes of writer keys and the packed value is decoded with the layout it was encoded with; nothing on the topology/hash path reads a name of the analysed function (the rule that found the closure-parameter-name and recursive-self-name leaks repaired in /repo); admission is inclusive; indexer and matcher consult the same collections. That the self-match confidence is numerically 1.0 is not decided.",
          "Callee names of other package-level functions are part of the call profile by design and outside this check.",
          "DESIGN.md §4 C05"),
- "C03": ("observed-attribute coverage (read-set) of the renderer's type-switch clauses against the struct definitions of the go/ssa version the target builds against, leaf-rendering ingredient analysis, must-pass-through gating of every normalisation with operator-set and rewrite-table extraction",
+ "C03": ("observed-attribute coverage (read-set) of the renderer's type-switch clauses against the struct definitions of the go/ssa version the target builds against, leaf-rendering ingredient analysis, must-pass-through gating of every normalisation with operator-set and rewrite-table extraction; Underlying() rule for the map/channel purity exclusion; induction-variable gate (the C12 classifier rules) and loop-identity rule for add-recurrences",
          "Injectivity is a runtime property and is NOT decided; decided are its structural necessary conditions: a clause for every instruction kind observing every exported field (+ result type where not operand-determined), typed constants, package-qualified function references, typed free variables, index-preserving sorts (one known finding: select-case sorting), swap/commutativity/hoisting guarded exactly as their soundness arguments require, no source-carrying function skipped. A change that drops an attribute or widens a guard makes every pair of functions differing only there collide — for all such pairs, which no sampled test can show.",
          "Attribute observation ≠ injective rendering; the semantic soundness of each normalisation beyond its gating is not decided.",
          "DESIGN.md §4 C03"),
- "C02": ("forbidden-read census (names, positions, comments, String()) over everything reachable from the canonicaliser, provenance of canonical register/block names, must-pass-through for own-nest exclusion before a function name is read, value-independence of the abstraction branch, ordered-write check for commutative operands, coupled swap state",
+ "C02": ("forbidden-read census (names, positions, comments, String()) over everything reachable from the canonicaliser, provenance of canonical register/block names, must-pass-through for own-nest exclusion before a function name is read, value-independence of the abstraction branch, ordered-write check for commutative operands, coupled swap state; Underlying()-before-structural-type-test rule for the commutativity and swap predicates; nest-root identity rule for self references; exactness-flag rule for literal values; phi operands rendered after edge sorting; trip-count derivation handles both orientations of the header test",
          "Decides the necessary conditions of cosmetic invariance for every function and refactoring at once (non-interference by read-set: code that never reads X cannot depend on X): no cosmetic attribute is read on the canonicalisation path; names come from counters; a referenced function's own name is read only outside the subject's nest (the rule that found the recursive-function rename defect repaired in /repo); abstracted literals render from their type only; commutative operands are written in string order; operator rewrite and branch exchange are recorded together; results are sorted by name.",
          "That go/ssa produces the same shape for cosmetically different sources is trusted; behavioural equality of the normalised forms is not decided.",
          "DESIGN.md §4 C02"),
@@ -79,7 +79,7 @@ CLAIMS = {
          "Decides the structural necessary conditions of 'never calls a behaviour change preserved': the verdict depends on successor edges (found the exchanged-branches defect), the size-guard marker cannot short-circuit to preserved (found the OVERSIZED defect), every scalar attribute of every instruction kind — incl. invoke mode and method of go/defer — is compared on both sides (found the defer/go defect), matches are recorded only after a full equivalence test, Preserved needs both unmatched lists empty, 'preserved' only under fingerprint equality or that flag. Completeness of the matching itself is not decided.",
          "Inherits C03's structural guarantees for operand rendering; completeness of structural matching is out of reach.",
          "DESIGN.md §4 C04"),
- "C01": ("effect classification of every range-over-map and goroutine body reachable from the fingerprint entry points (interprocedural effect summaries relative to parameters, loop-carried value analysis, taint of collections built in iteration order with discharge by a total sort from a reviewed comparator table), reset-completeness of sync.Pool-managed types, census of package-level state and of nondeterminism sources, purity of sort comparators",
+ "C01": ("effect classification of every range-over-map and goroutine body reachable from the fingerprint entry points (interprocedural effect summaries relative to parameters, loop-carried value analysis, taint of collections built in iteration order with discharge by a total sort from a reviewed comparator table), reset-completeness of sync.Pool-managed types, census of package-level state and of nondeterminism sources, purity of sort comparators; path-sensitive reset rule for every field of the pooled canonicaliser; release-once typestate rule for pooled instances (no immediate release next to a deferred one); no early exit from a map range after element-dependent effects",
          "Decides 'no source of nondeterminism reaches a fingerprint' as an exhaustive census: all 16 map ranges on the path have only order-insensitive effects or feed a total sort; every field of the pooled canonicaliser is reset/assigned/reset-before-use on acquire (or covered by a checked premise); no run-time-written package state without lock discipline; no clock/random/env/goroutine/select; positions flow only into position fields. This covers every history of prior analyses, every interleaving and every file location at once.",
          "Determinism of go/packages, go/types, go/ssa is trusted. Effect summaries treat objects reached through local containers as local (stated limitation).",
          "DESIGN.md §4 C01"),
